@@ -207,7 +207,10 @@ class Trace:
                 if self_.zc is zc and tr.cur is not None:
                     seen = []
                     for i, r in enumerate(tr.uni.recs):
-                        e = zc.cache.async_get_unique(r)
+                        # the cached copy of this record, read from the store itself under the lower-cased name (what "the host
+                        # saw multicast" means; not through `async_get_unique`, which is code under test)
+                        store = zc.cache.cache.get(r.key)
+                        e = store.get(r) if store is not None else None
                         if e is not None:
                             seen.append((i, int(e.created), int(e.ttl)))
                     tr.cur["asm"] = dict(seen=seen, addr=addr, port=port, npkts=len(packets), first_now=int(packets[0].now) if packets else None,
@@ -358,12 +361,18 @@ TYPES = ["_a._tcp.local.", "_b._tcp.local."]
 def make_infos(rng, ttl_bias=None):
     from zeroconf import ServiceInfo
 
+    import random as _random
+
     n = rng.choice([1, 1, 2, 2, 3])
+    # spelling of registered names: mixed case in about half of the services (drawn from a fork of the generator's state so
+    # that existing scenarios keep everything else)
+    sub = _random.Random(repr(rng.getstate()[1][:8]))
     infos = []
     for i in range(n):
         t = rng.choice(TYPES)
         share_host = i > 0 and rng.random() < 0.3
-        server = infos[0].server if share_host else "h%d.local." % i
+        cap = sub.random() < 0.5
+        server = infos[0].server if share_host else ("MyHost%d.local." if cap else "h%d.local.") % i
         addrs = [socket.inet_aton("10.0.0.%d" % (i + 1))]
         if rng.random() < 0.35:
             addrs.append(socket.inet_pton(socket.AF_INET6, "fe80::%d" % (i + 1)))
@@ -372,7 +381,7 @@ def make_infos(rng, ttl_bias=None):
             host_ttl, other_ttl = 120, 4500
         else:
             host_ttl, other_ttl = rng.choice(pool), rng.choice(pool)
-        infos.append(ServiceInfo(t, "s%d.%s" % (i, t), 8000 + i, addresses=addrs, server=server, properties={"k": "v%d" % i},
+        infos.append(ServiceInfo(t, ("MyPrinter%d.%s" if cap else "s%d.%s") % (i, t), 8000 + i, addresses=addrs, server=server, properties={"k": "v%d" % i},
                                  host_ttl=host_ttl, other_ttl=other_ttl))
     return infos
 
